@@ -523,8 +523,7 @@ def gen_trace(rng, tier='quick', crit_names=(), arm=None):
     if len(algebras) >= 2 and rng.random() < 0.4:
         same = [j for j in range(1, len(algebras)) if dim_of(algebras[j]) == dim_of(algebras[0])
                 and not algebras[j].get('graded') and not algebras[0].get('graded')
-                and not algebras[j].get('name') and not algebras[0].get('name')
-                and start_index_of(algebras[j]) == start_index_of(algebras[0])]
+                and not algebras[j].get('name') and not algebras[0].get('name')]
         if same:
             mirror_with = rng.choice(same)
             ctx['binops'], ctx['unops'] = bins, uns
@@ -593,7 +592,25 @@ def gen_trace(rng, tier='quick', crit_names=(), arm=None):
                 callers[rng.randrange(len(callers))].append(twin)
     if mirror_with is not None:
         for c, prog in enumerate(callers):
-            first = [op for op in prog if op['alg'] == 0 and not any(a.get('k') in ('sh', 'other', 'prev') for a in op.get('args', []))]
+            same_names = start_index_of(algebras[0]) == start_index_of(algebras[mirror_with])
+
+            def portable(a):
+                # blade *names* differ between algebras with another start index; numeric keys do not
+                if a.get('k') in ('sh', 'other', 'prev'):
+                    return False
+                if same_names:
+                    return True
+                if a.get('k') in ('kw', 'bl', 'opres'):
+                    return False
+                if a.get('k') == 'map' and any(isinstance(k, str) for k in a.get('keys', [])):
+                    return False
+                if a.get('k') in ('call0',):
+                    return portable(a['of'])
+                if a.get('k') == 'list':
+                    return all(portable(x) for x in a['of'])
+                return True
+            first = [op for op in prog if op['alg'] == 0 and all(portable(a) for a in op.get('args', []))
+                     and not (op['kind'] == 'meth' and op.get('op') == 'getblade' and not same_names)]
             mirrored = []
             for op in first:
                 m = _copy.deepcopy(op)
